@@ -1,6 +1,7 @@
 import Vanguard.Lemmas.Source
 import Vanguard.Lemmas.UInt8
 import Vanguard.Gen.Facts
+import Vanguard.Lemmas.Chunking
 /-!
   C09 — Truncated or malformed streams never surface as success.
 
@@ -12,6 +13,13 @@ import Vanguard.Gen.Facts
     completed read, however the bytes were split (`readExactly` over adversarial chunkings): a cut
     inside the 5-byte prefix or inside the payload cannot be taken for a frame boundary;
   * a clean end exactly at a frame boundary is the only way to get `EOF`.
+  * one level up, for the transcoder's own message reader (`readRequestMessage`, every segmentation):
+    a body that is a sequence of legal frames within the limit is cut into **exactly those messages**
+    (payloads and compressed flags, in order) followed by a clean end
+    (`complete_messages_delivered_exactly`); a body that stops inside an envelope after such frames
+    yields the complete messages and then `unexpected EOF`, never the partial data and never a clean
+    end (`cut_body_is_error_after_complete_messages`); a payload shorter than announced is an error
+    (`cut_payload_is_error`).
   On the implementation, `oracleC09` demands a non-OK client outcome for every request or response
   stream of the e2e scenarios that is not a whole number of frames, carries an illegal flag byte or
   ends with an unexpected EOF, and that the backend was handed only messages the client completed.
@@ -72,5 +80,33 @@ theorem eof_only_at_boundary (src : Source) (hd : src.data = []) (he : src.endin
 /-- Every envelope dialect of the model has a 5-byte prefix; so has the source (`envelopeLen`,
     regenerated on every run). -/
 theorem source_envelope_length_is_model : Gen.envelopeLen = 5 := by decide
+
+/-- **Every complete message is delivered exactly, then a clean end** (see `Lemmas/Chunking.lean`). -/
+theorem complete_messages_delivered_exactly (w : World) (ce : Enveloper) (fs : List Frame) (st : St) (n : Nat)
+    (hce : st.op.clientEnveloper = some ce) (hok : ∀ x ∈ fs, x.ok ce st.op.conf.maxMsg)
+    (hd : st.src.data = framesBytes fs) (he : st.src.ending ≠ .unexpected) (hn : fs.length < n) :
+    readMessages w n st = (fs.map (Frame.msg ce), .eof) :=
+  readMessages_frames w ce fs st n hce hok hd he hn
+
+/-- **A body cut inside an envelope**: the complete messages, then an error. -/
+theorem cut_body_is_error_after_complete_messages (w : World) (ce : Enveloper) (fs : List Frame) (tail : Bytes)
+    (st : St) (n : Nat) (hce : st.op.clientEnveloper = some ce) (hok : ∀ x ∈ fs, x.ok ce st.op.conf.maxMsg)
+    (hd : st.src.data = framesBytes fs ++ tail) (hn : fs.length < n) (ht : 0 < tail.length ∧ tail.length < 5) :
+    readMessages w n st = (fs.map (Frame.msg ce), .unexpectedEOF) :=
+  readMessages_cut w ce fs tail st n hce hok hd hn ht
+
+/-- **A payload shorter than its envelope announces** is an error: the partial message is not returned. -/
+theorem cut_payload_is_error (w : World) (st : St) (ce : Enveloper) (hce : st.op.clientEnveloper = some ce)
+    (f a b c d : UInt8) (part : Bytes) (env : Envelope) (hdata : st.src.data = [f, a, b, c, d] ++ part)
+    (hdec : ce.decode f a b c d = some env) (hnt : env.trailer = false) (hshort : part.length < env.length)
+    (hfit : ¬ env.length > st.op.conf.maxMsg) :
+    (readRequestMessage w st false).1 = .error .unexpectedEOF :=
+  readRequestMessage_cut_payload w st ce hce f a b c d part env hdata hdec hnt hshort hfit
+
+/-- Non-vacuity: a gRPC frame `00 00 00 00 02 | 07 08` is `ok` under a limit of 16 bytes, and its
+    message is the two payload bytes, not compressed. -/
+example : (⟨0, 0, 0, 0, 2, [7, 8]⟩ : Frame).ok .grpcClient 16 :=
+  ⟨{ length := 2 }, by decide, rfl, rfl, by decide⟩
+example : (⟨0, 0, 0, 0, 2, [7, 8]⟩ : Frame).msg .grpcClient = ([7, 8], false) := by decide
 
 end Vanguard.C09
